@@ -49,8 +49,10 @@ var c14Crashes = [][2]string{
 func c14Size(r *rand.Rand) int64 {
 	// pad bytes: mostly small, sometimes multi-page, rarely large (up to ~200 KiB)
 	switch x := r.IntN(10); {
-	case x < 5:
+	case x < 4:
 		return int64(r.IntN(300))
+	case x < 5: // around page and pipe-buffer boundaries once base64-encoded
+		return int64(core.Pick(r, 2500, 2700, 2900, 3000, 5600, 5900, 24000, 48800, 49100))
 	case x < 8:
 		return int64(4096 + r.IntN(12000))
 	default:
